@@ -587,6 +587,23 @@ func r045(c *Ctx, r *R) {
 		}
 		if strip(root) == base {
 			written = append(written, fieldOfAddr(fa).Name())
+			// the optional overrides replace the copied value only when
+			// the request carries one
+			switch fieldOfAddr(fa).Name() {
+			case "Name":
+				given := guardedBy(st.Block(), func(g Guard) bool {
+					x, k, tme, isEq := eqConst(g.Cond)
+					if !isEq || k.Kind() != constant.String || constant.StringVal(k) != "" || tme == g.Branch {
+						return false
+					}
+					xf, _ := fieldLoad(x)
+					return xf != nil && xf.Name() == "Name"
+				})
+				r.Check(given, "PinUpdate:name-only-when-given", st.Pos(), "the copied name is replaced only by a non-empty requested name", "PinUpdate overwrites the name copied from the source pin even when the request gives none: an update without a name stores the new pin unnamed (the source's options must be copied)")
+			case "ExpireAt":
+				given := guardedBy(st.Block(), func(g Guard) bool { return gCall(g, false, "(time.Time).IsZero") })
+				r.Check(given, "PinUpdate:expiry-only-when-given", st.Pos(), "the copied expiry is replaced only by a requested one", "PinUpdate overwrites the expiry copied from the source pin even when the request gives none")
+			}
 		}
 	})
 	sort.Strings(written)
